@@ -1454,6 +1454,9 @@ class GroupByCumulativeFinalizer(Expr, GroupByBase):
                 self.aggregate,
                 self.initial,
             )
+            if is_series_like(self._meta):
+                # the helper column we aggregated was named 0 for unnamed results
+                dsk[(self._name, i)] = (M.rename, dsk[(self._name, i)], self._meta.name)
         return dsk
 
 
